@@ -475,6 +475,41 @@ func scaleRingsXY(p []ring, ex, ey int) []ring {
 	return out
 }
 
+// translateRings adds (ox, oy) to every vertex (rounded when the sum is not representable: the judge reads the
+// coordinates the implementation got)
+func translateRings(p []ring, ox, oy float64) []ring {
+	out := make([]ring, len(p))
+	for i, r := range p {
+		out[i] = make(ring, len(r))
+		for j, q := range r {
+			out[i][j] = geom.Point{X: q.X + ox, Y: q.Y + oy}
+		}
+	}
+	return out
+}
+
+// farOffsets: powers of two 2^20..2^40 and decimal offsets 1e5..1e9 (whole and fractional), either sign
+func farOffset(r *vproto.Rng) float64 {
+	var o float64
+	switch r.Intn(4) {
+	case 0:
+		o = math.Ldexp(1, r.Range(20, 40))
+	case 1:
+		o = math.Ldexp(float64(r.Range(3, 15)), r.Range(18, 36)) // k·2^e
+	case 2:
+		o = []float64{1e5, 1e6, 1e7, 1e8, 1e9, 3e7, 5e5, 4.2e8}[r.Intn(8)]
+	default:
+		o = []float64{500000.123, 5000000.456, 123456.789, 98765432.125, 1e9 + 0.25, 654321.5, 33333333.3, 271828.1828}[r.Intn(8)]
+	}
+	if r.Bool() {
+		o = -o
+	}
+	return o
+}
+
+// farExact: offsets for which the area sums of a small integer-grid polygon stay exact (whole numbers up to 2^30)
+func farExact(o float64) bool { return o == math.Trunc(o) && math.Abs(o) <= 1<<30 }
+
 var anisoExps = [][2]int{{0, 600}, {600, 0}, {0, -600}, {-600, 0}, {350, -350}, {-350, 350}, {0, 520}, {-520, 0}, {0, 320}, {310, 0}, {400, -200}, {0, -330}}
 
 // lay picks the memory layout suffix of a tag (see relayout)
@@ -535,21 +570,19 @@ func gen(seed uint64, tier string) {
 		b := toPoly(scaleRingsXY([]ring{respell(big, spell{closed: true}), respell(hole, spell{closed: true, rev: true})}, e[0], e[1]))
 		fmt.Fprintf(out, "area g %s\ncent g %s\nmcent g %s\n", G(b), G(b), G(geom.MultiPolygon{b}))
 	}
-	// polygons far from the origin relative to their size (finding 9, `known`: catastrophic cancellation in the
-	// centroid sums, relative error ~ 2^-53 (offset/extent)^2); emitted only with VERIF_C03_FAR_OFFSET=1 until
-	// KNOWN_FINDINGS.json (shared, built by bin/mkfindings) carries the entry of findings/C03.json
-	if os.Getenv("VERIF_C03_FAR_OFFSET") != "0" { // on: KNOWN_FINDINGS.json carries the entry
-		for _, o := range [][2]float64{{1 << 30, 1 << 30}, {1e9, 1e9}, {500000.123, 5000000.456}, {1e12, -1e12}} {
-			q := make([]ring, 2)
-			for i, rr := range []ring{respell(big, spell{closed: true}), respell(hole, spell{closed: true, rev: true})} {
-				q[i] = make(ring, len(rr))
-				for j, v := range rr {
-					q[i][j] = geom.Point{X: v.X + o[0], Y: v.Y + o[1]}
-				}
-			}
-			b := toPoly(q)
-			fmt.Fprintf(out, "area f %s\ncent f %s\nmcent f %s\n", G(b), G(b), G(geom.MultiPolygon{b}))
+	// polygons far from the origin relative to their size (finding 9, fixed: the centroid sums formed in absolute
+	// coordinates cancel, relative error ~ 2^-53 (offset/extent)^2; they are now formed relative to the first vertex).
+	// The judge measures the centroid against the EXTENT of the polygon (class suffix -offset:far).
+	for _, o := range [][2]float64{{1 << 30, 1 << 30}, {1e9, 1e9}, {500000.123, 5000000.456}, {1e12, -1e12},
+		{-(1 << 40), 1 << 20}, {0, 1 << 35}, {-1e7, 0}, {123456.789, -98765432.125}, {1e5, 1e8}} {
+		b := toPoly(translateRings([]ring{respell(big, spell{closed: true}), respell(hole, spell{closed: true, rev: true})}, o[0], o[1]))
+		fmt.Fprintf(out, "cent f %s\nmcent f %s\n", G(b), G(geom.MultiPolygon{b}))
+		if farExact(o[0]) && farExact(o[1]) {
+			fmt.Fprintf(out, "area f %s\n", G(b))
 		}
+		// the first vertex is not the first ring's / the first member is not the largest: two members far away
+		mp2 := geom.MultiPolygon{toPoly(translateRings([]ring{sqC}, o[0]+20, o[1]-7)), b}
+		fmt.Fprintf(out, "mcent f %s\n", G(mp2))
 	}
 	for _, mp := range []geom.MultiPolygon{{}, {{}}, {{sqcwC}}, {{sqC}, {respell(hole, spell{closed: true, rev: true})}},
 		{{sqcwC}, {respell(big, spell{closed: true}), respell(hole, spell{closed: true})}}} {
@@ -638,6 +671,27 @@ func gen(seed uint64, tier string) {
 			ae := anisoExps[r.Intn(len(anisoExps))]
 			q, _ = randSpells(scaleRingsXY(base, ae[0], ae[1]), true, true)
 			fmt.Fprintf(out, "area g%s %s\ncent g%s %s\nmcent g%s %s\n", lay(r), G(toPoly(q)), lay(r), G(toPoly(q)), lay(r), G(geom.MultiPolygon{toPoly(q)}))
+		}
+		// far from the origin relative to its size (offsets 2^20..2^40, 1e5..1e9, whole and fractional, per axis; one
+		// axis may stay near): the centroid is judged against the extent of the polygon, not against the offset
+		if i%2 == 1 {
+			ox, oy := farOffset(r), farOffset(r)
+			switch r.Intn(5) {
+			case 0:
+				ox = float64(r.Range(-3, 3))
+			case 1:
+				oy = float64(r.Range(-3, 3))
+			}
+			fb := translateRings(base, ox, oy)
+			q, _ := randSpells(fb, true, true)
+			fmt.Fprintf(out, "cent f%s %s\nmcent f%s %s\n", lay(r), G(toPoly(q)), lay(r), G(geom.MultiPolygon{toPoly(q)}))
+			q, _ = randSpells(fb, true, false)
+			fmt.Fprintf(out, "cent f%s %s\nmcent f%s %s\n", lay(r), G(toPoly(q)), lay(r), G(geom.MultiPolygon{toPoly(q)}))
+			q, _ = randSpells(fb, false, false) // unclosed spellings: outside the statement, tie the model to the code
+			fmt.Fprintf(out, "cent f%s %s\nmcent f%s %s\n", lay(r), G(toPoly(q)), lay(r), G(geom.MultiPolygon{toPoly(q)}))
+			if farExact(ox) && farExact(oy) {
+				fmt.Fprintf(out, "area f%s %s\n", lay(r), G(toPoly(q)))
+			}
 		}
 		// the same base at dyadic scales (absolute thresholds must not exist): three scales per base,
 		// one closed and one free spelling each; still tag g (exact on the scaled grid)
